@@ -355,29 +355,55 @@ static int pick_dl (void) {
 	return ((int) rt_rand_n (300000));
 }
 
+/* Swarm generation: every round draws its own feature weights, so that some rounds are dominated by (or entirely lack) a
+   kind of acquisition, action, deadline scale, timed/cancellable share: a uniform mix rarely produces e.g. a storm of readers
+   around reader-mode timed conditional waits.  Half of the rounds use the plain weights.  */
+static struct { int acq_w[5], act_w[9], timed_pct, note_pct, dl_scale; } SW;
+static const int acq_base[5] = { 35, 30, 10, 10, 15 };                      /* LOCK RLOCK TRY RTRY NONE */
+static const int act_base[9] = { 18, 20, 24, 10, 8, 6, 4, 6, 4 };          /* SETV CVWAIT MUWAIT WAITN SIGNAL BCAST NOTIFY POINT DEBUG */
+static int weighted (const int *w, int n) {
+	int i, tot = 0; unsigned r;
+	for (i = 0; i < n; i++) tot += w[i];
+	r = rt_rand_n ((unsigned) tot);
+	for (i = 0; i < n; i++) { if (r < (unsigned) w[i]) return (i); r -= (unsigned) w[i]; }
+	return (n - 1);
+}
+static void gen_swarm (void) {
+	static const int factor[4] = { 0, 1, 1, 4 };
+	int i, plain = (rt_rand_n (2) == 0);
+	for (i = 0; i < 5; i++) SW.acq_w[i] = acq_base[i] * (plain ? 1 : factor[rt_rand_n (4)]);
+	for (i = 0; i < 9; i++) SW.act_w[i] = act_base[i] * (plain ? 1 : factor[rt_rand_n (4)]);
+	if (SW.acq_w[0] + SW.acq_w[1] + SW.acq_w[2] + SW.acq_w[3] == 0) SW.acq_w[rt_rand_n (2)] = 30;   /* some blocking acquisition */
+	if (!S.debug_on) SW.act_w[8] = 0;
+	if (SW.act_w[0] + SW.act_w[1] + SW.act_w[2] + SW.act_w[3] + SW.act_w[7] == 0) SW.act_w[7] = 6;
+	SW.timed_pct = plain ? 70 : (int) rt_rand_n (3) * 35 + 30;       /* 30 / 65 / 100 */
+	SW.note_pct = plain ? 30 : (int) rt_rand_n (3) * 30;              /* 0 / 30 / 60 */
+	SW.dl_scale = plain ? 0 : (int) rt_rand_n (3);                     /* 0 any, 1 short, 2 long */
+	rt_ev ((uint32_t) (plain | SW.timed_pct << 1 | SW.note_pct << 9 | SW.dl_scale << 17));
+}
+static int swarm_dl (void) {
+	int d = pick_dl ();
+	if (SW.dl_scale == 1 && rt_mode_b ()) d = (int) rt_rand_n (9) * 100;
+	else if (SW.dl_scale == 1) d = (int) rt_rand_n (30000);
+	else if (SW.dl_scale == 2 && rt_mode_b () && d < 3000) d = 100000;
+	return (d);
+}
+
 static void gen_act (int tid, struct act *a, int acq) {
-	unsigned r;
+	static const int kinds[9] = { A_SETV, A_CVWAIT, A_MUWAIT, A_WAITN, A_SIGNAL, A_BCAST, A_NOTIFY, A_POINT, A_DEBUG };
 	memset (a, 0, sizeof (*a));
 	a->k = (int) rt_rand_n (NV);
 	if (acq == ACQ_NONE) {
-		r = rt_rand_n (S.debug_on ? 5 : 4);
-		a->kind = r == 0 ? A_SIGNAL : r == 1 ? A_BCAST : r == 2 ? A_NOTIFY : r == 3 ? A_POINT : A_DEBUG;
+		int w[9] = { 0, 0, 0, 0, 1, 1, 1, 1, 0 }; w[8] = S.debug_on ? 1 : 0;
+		a->kind = kinds[weighted (w, 9)];
 		return;
 	}
-	r = rt_rand_n (100);
-	if (r < 18) { a->kind = A_SETV; a->val = (int) rt_rand_n (2); }
-	else if (r < 38) a->kind = A_CVWAIT;
-	else if (r < 62) a->kind = A_MUWAIT;
-	else if (r < 72) a->kind = A_WAITN;
-	else if (r < 80) a->kind = A_SIGNAL;
-	else if (r < 86) a->kind = A_BCAST;
-	else if (r < 90) a->kind = A_NOTIFY;
-	else if (r < 96 || !S.debug_on) a->kind = A_POINT;
-	else a->kind = A_DEBUG;
+	a->kind = kinds[weighted (SW.act_w, 9)];
+	if (a->kind == A_SETV) a->val = (int) rt_rand_n (2);
 	if (a->kind == A_CVWAIT || a->kind == A_MUWAIT || a->kind == A_WAITN) {
-		a->timed = (tid == 0) ? 1 : (rt_rand_n (100) < 70);
-		a->note = (rt_rand_n (100) < 30) ? 1 + (int) rt_rand_n (NNOTE) : 0;
-		a->dl_ns = pick_dl ();
+		a->timed = (tid == 0) ? 1 : ((int) rt_rand_n (100) < SW.timed_pct);
+		a->note = ((int) rt_rand_n (100) < SW.note_pct) ? 1 + (int) rt_rand_n (NNOTE) : 0;
+		a->dl_ns = swarm_dl ();
 		a->variant = (int) rt_rand_n (4);
 		if (a->kind == A_MUWAIT && a->variant == 3 && rt_rand_n (4) != 0) a->variant = 0;   /* NULL condition only rarely */
 	}
@@ -405,13 +431,14 @@ static int setup (uint64_t seed) {
 	  if (maxt > rt_scen.max_threads) maxt = rt_scen.max_threads;
 	  n = 2 + (int) rt_rand_n ((unsigned) (maxt - 1)); }
 	S.nthreads = n;
+	gen_swarm ();
 	for (t = 0; t < n; t++) {
 		struct prog *p = &S.prog[t];
 		p->nsect = 3 + (int) rt_rand_n (MAXSECT - 3);
 		for (i = 0; i < p->nsect; i++) {
 			struct sect *s = &p->s[i];
-			unsigned r = rt_rand_n (100);
-			s->acq = r < 35 ? ACQ_LOCK : r < 65 ? ACQ_RLOCK : r < 75 ? ACQ_TRY : r < 85 ? ACQ_RTRY : ACQ_NONE;
+			static const int acqs[5] = { ACQ_LOCK, ACQ_RLOCK, ACQ_TRY, ACQ_RTRY, ACQ_NONE };
+			s->acq = acqs[weighted (SW.acq_w, 5)];
 			s->nact = (int) rt_rand_n (MAXACT + 1);
 			if (s->acq == ACQ_NONE && s->nact == 0) s->nact = 1;
 			s->nowake = rt_rand_n (4) == 0;
